@@ -192,7 +192,7 @@ def report(prop, tier, seed, level, res, coverage, wall, assumptions=()):
         print('   ... %d further violation classes not written out' % (len(new) - 20))
     if res.harness_errors:
         for h in res.harness_errors[:3]:
-            print('HARNESS-ERROR', h['harness_error'], file=sys.stderr)
+            print('HARNESS-ERROR', '\n'.join(h['harness_error'].splitlines()[-8:]), file=sys.stderr)
         code = code or 2
     cov = dict(coverage)
     cov.setdefault('samples', res.samples[:5] or ['(none)'])
